@@ -982,6 +982,7 @@ func genTimeouts(p *params, emit func(string, bool)) {
 	progs := []prog{
 		mkProg("to1", "S:1:R,1,2:2:0:0:0 T:2:100:R,1,3:3:0 S:3:R,1,4:4:0:0:0"),
 		mkProg("to-zero", "S:1:R,1,2:2:0:0:0 T:2:-1:R,1,3:3:0"),
+		mkProg("to-zero-located", "S:1:R,1,2:2:0:0:0 T:2:-3:R,1,3:3:0 T:2:100:R,1,4:4:0"),
 		mkProg("to-fail", "S:1:R,1,2:2:0:0:0 T:2:100:F,2,13,R,1,3:3:0"),
 		mkProg("to-skip", "S:1:R,1,2:2:0:0:0 T:2:100:R,1,0:3:0 C:2:R,1,3:3"),
 		mkProg("to-cb", "S:1:R,1,2:2:0:0:0 T:2:100:R,1,3:3:0 C:2:R,1,4:4"),
